@@ -153,6 +153,11 @@ class VThread:
             self.s.controller_sem.release()
 
     def start(self):
+        # a library that spins (a macrostep that never ends) may start a timer / watcher thread per iteration: thousands of
+        # parked OS threads slow everything down long before the watchdog fires - treated as the hang it is
+        if sum(1 for t in self.s.threads if t.started and not t.done) > 1500:
+            impl._HUNG[0] = True
+            raise impl.Hang()
         self.started = True
         self.ready_at = self.s.now
         _rt.Thread(target=self._run, daemon=True).start()
@@ -323,7 +328,7 @@ def run_life_sync(case):
     sched = Sched()
     saved = (si.threading, si.time)
     si.threading, si.time = ThreadingShim(sched), TimeShim(sched)
-    log, side, out = [], [], []
+    log, side, out = impl.BoundedLog(), [], []
     abandoned = []
     try:
         machine, it = _build("sync", case, log, side)
@@ -414,7 +419,7 @@ def _task_name(t):
 
 
 async def _run_life_async(case):
-    log, side, out = [], [], []
+    log, side, out = impl.BoundedLog(), [], []
     machine, it = _build("async", case, log, side)
     step = case.get("drain_step_ms", 0) / 1000.0
     for call in case["calls"]:
@@ -1043,7 +1048,7 @@ def run_c04_sync(case):
 
 
 async def _run_c04_async(case):
-    log, side, out = [], [], []
+    log, side, out = impl.BoundedLog(), [], []
     machine, it = _build("async", case, log, side)
     step = case.get("drain_step_ms", 0) / 1000.0
     for call in case["calls"]:
